@@ -143,6 +143,35 @@ def c05_zone(d: int, s: str, interval: bool) -> int:
     return verdict(literal_ok(lit, s, False), "c05_zone", d=d, s=s, interval=interval)
 
 
+@harness(
+    prop="C05",
+    cubes={"d": range(ND), "d0": range(ND)},
+    bounds={"quick": {"L": 2}, "thorough": {"L": 4}},
+    timeout={"quick": 120, "thorough": 1200},
+    witness=[dict(d=1, d0=0, s="a" + chr(92), how=0), dict(d=0, d0=1, s="'", how=1)],
+    doc="one wrapped constant object used in a statement of dialect class d0 first (rendered / printed) and then in a "
+        "statement of class d: the second literal follows d's rules (str value, len<=L)",
+)
+def c05_reuse(d: int, d0: int, s: str, how: int) -> int:
+    """
+    bound: len(s) <= L and 0 <= how <= 1
+    """
+    t = Table("t")
+    w = ValueWrapper(s)
+    first = QS[d0].from_(t).select(t.a).where(t.b == w)
+    if how == 0:
+        first.get_sql(dctx(d0))
+    else:
+        str(first)
+    out = QS[d].from_(t).select(t.a).where(t.b == w).get_sql(dctx(d))
+    lit = cut(1, d, out, "'" + PROBE + "'")
+    note("sql", out)
+    note("literal", lit)
+    if lit is None:
+        return verdict(False, "c05_reuse", d=d, d0=d0, s=s, how=how)
+    return verdict(literal_ok(lit, s, d == 1), "c05_reuse", d=d, d0=d0, s=s, how=how)
+
+
 # ---- stubbed stdlib encoders ---------------------------------------------------------------
 class _Date(datetime.date):
     def __new__(cls, text):
